@@ -183,7 +183,8 @@ def run(ctx):
         ctx.case(json.dumps([case['x'], case['y']]), nontrivial=(case['d1'] > 0 and case['d2'] > 0))
         for fam, p, detail in probs:
             ctx.violation('C10|%s|%s|%s' % (fam.capitalize(), p, _bucket(case)),
-                          '%s.fit: %s (%s) on ranks x=%s y=%s' % (fam.capitalize(), p, detail, case['x'], case['y']), case)
+                          '%s.fit: %s (%s) on ranks x=%s y=%s' % (fam.capitalize(), p, detail, case['x'], case['y']),
+                          dict(case, rerun=['harness.props.C10._check', case]))
     ctx.sample(cases[len(cases) // 3])
     ctx.sample(cases[-5])
     # values outside [0, 1]
